@@ -1699,4 +1699,61 @@ class C16(Prop):
         pass
 
 
-ALL = {c.id: c for c in [C01, C02, C03, C04, C05, C06, C07, C08, C09, C10, C11, C12, C13, C14, C15, C16, C17, C18]}
+class C19(Prop):
+    id = "C19"
+    streams = [Stream("sched", "all", quick=1, thorough=1, seeds_thorough=1, tags={"C", "A", "T", "DEF"})]
+    determined = True
+    exhaustive = True
+    determined_why = "the property fixes the answer for every calendar date (true iff last Monday-Friday of its month) and its independence of the time of day"
+    rule = ("every day from 1970-01-01 to 2200-12-31 (84 371 days), each at 00:00:00, 00:00:01, 09:00, 17:00 and 23:59:59 UTC: the real "
+            "should_trade, the DateTime accessors (year, month, day, weekday) and the default schedule against the model calendar and "
+            "the model schedule; the domain is enumerated completely in both tiers; non-trivial = a case containing days that answer "
+            "true and days that answer false (the single case is the whole domain)")
+    level_text = ("Theorem C19.true_exactly_on_last_weekday (Lean 4): for every timestamp >= 0 (every day number, unbounded) the model of "
+                  "should_trade is true iff the day is a weekday and every later day of the same month is a weekend day; independent of "
+                  "the time of day; default schedule constantly true; the driver's streaming evaluation is proved equal to the model. "
+                  "The time crate's calendar and the real function are compared with the model on the complete domain 1970-2200.")
+    level_note = "Proof for every day number over the model calendar (iteration of next-day from 1970-01-01); the time crate is trusted only through the exhaustive comparison on 1970-2200"
+    technique = "Lean 4 proof by case analysis on the position in the month (omega) over an iterated calendar + exhaustive correspondence on the finite domain"
+    design_ref = "DESIGN.md section 8, C19"
+    assumptions = ["timestamps are non-negative (1970 onwards, the property's range)"]
+
+    def nontrivial(self, stream, annot, impl):
+        t = f = False
+        for l in impl:
+            s = sections(l)
+            if "A" in s:
+                t |= s["A"] == ["true"]
+                f |= s["A"] == ["false"]
+        return t and f
+
+    def monitor(self, stream, annot, impl):
+        """the property evaluated with Python's own calendar on the implementation's answers"""
+        import datetime
+        base = datetime.date(1970, 1, 1)
+        for k, (op, out) in enumerate(zip(annot, impl)):
+            if not op.startswith("D "):
+                continue
+            s = sections(out)
+            d = base + datetime.timedelta(days=int(op.split()[1]))
+            want = d.weekday() < 5
+            x = d + datetime.timedelta(days=1)
+            while x.month == d.month:
+                if x.weekday() < 5:
+                    want = False
+                x += datetime.timedelta(days=1)
+            if s["A"] != [str(want).lower()]:
+                yield (k, "true-iff-last-weekday-of-month", f"{d.isoformat()}: answered {s['A'][0]}, last weekday of its month: {want}")
+                return
+            if s["T"] != ["true"]:
+                yield (k, "independent-of-time-of-day", f"{d.isoformat()}")
+                return
+            if s["DEF"] != ["true"]:
+                yield (k, "default-schedule-always-true", f"{d.isoformat()}")
+                return
+
+    def __init__(self):
+        pass
+
+
+ALL = {c.id: c for c in [C01, C02, C03, C04, C05, C06, C07, C08, C09, C10, C11, C12, C13, C14, C15, C16, C17, C18, C19]}
